@@ -26,17 +26,17 @@ func init() { otherChecks["C17"] = runC17 }
 // subModel is the harness's own record of what a subscription's configuration
 // must be (0 / "" / nil = unset, defaults applied on read).
 type subModel struct {
-	Name, Topic string
-	Labels      map[string]string
-	Retention   time.Duration
-	TTL         time.Duration
-	Ordered     bool
-	Filter      string
-	MinB, MaxB  time.Duration
+	Name, Topic    string
+	Labels         map[string]string
+	Retention      time.Duration
+	TTL            time.Duration
+	Ordered        bool
+	Filter         string
+	MinB, MaxB     time.Duration
 	HasMin, HasMax bool
-	DLTopic     string
-	DLAttempts  int32
-	Push        string
+	DLTopic        string
+	DLAttempts     int32
+	Push           string
 }
 
 const (
@@ -452,7 +452,9 @@ func runC17(t *testing.T, tier string) int {
 	cov["exhaustive"] = true
 	ev := report.Evidence{PropertyID: "C17", Tier: tier, Seed: report.Seed(), Level: "exploration", Coverage: cov,
 		Assumptions: []string{"SQLite backend (durations stored as Go duration text); PostgreSQL's own rendering is represented by generated strings in its documented 'postgres' IntervalStyle", "absent and zero-valued optional durations are compared as equal"}}
-	sort.Slice(sink.list, func(i, j int) bool { return len(strings.Join(sink.list[i].Trace, "")) < len(strings.Join(sink.list[j].Trace, "")) })
+	sort.Slice(sink.list, func(i, j int) bool {
+		return len(strings.Join(sink.list[i].Trace, "")) < len(strings.Join(sink.list[j].Trace, ""))
+	})
 	return report.Finish(ev, sink.list, t0)
 }
 
